@@ -140,7 +140,7 @@ func initEngineTypes(i *interpreter) {
 		recv := types.NewVar(token.NoPos, rtPkg, "e", types.NewPointer(n))
 		sig := types.NewSignatureType(recv, nil, nil, nil, types.NewTuple(types.NewVar(token.NoPos, rtPkg, "", res)), false)
 		n.AddMethod(types.NewFunc(token.NoPos, rtPkg, name, sig))
-		engineFns[n.Obj().Name()+"."+name] = i.prog.NewFunction("(*symgo/rt."+n.Obj().Name()+")."+name, sig, "engine")
+		engineFns[n.Obj().Name()+"."+name] = i.prog.NewFunction(name, sig, "engine")
 	}
 	errLeafT = mkNamed("errorLeaf")
 	addMethod(errLeafT, "Error", str)
@@ -607,6 +607,15 @@ func init() {
 		},
 		"unicode/utf8.RuneCountInString": func(fr *frame, args []value) value {
 			return utf8.RuneCountInString(args[0].(string))
+		},
+		// zstd is cut: compression is modelled as the identity (a bijection on byte strings)
+		"github.com/rpcpool/yellowstone-faithful/tooling.CompressZstd": func(fr *frame, args []value) value {
+			stub("tooling.CompressZstd (model: identity)")
+			return tuple{append([]value{}, args[0].([]value)...), iface{}}
+		},
+		"github.com/rpcpool/yellowstone-faithful/tooling.DecompressZstd": func(fr *frame, args []value) value {
+			stub("tooling.DecompressZstd (model: identity)")
+			return tuple{append([]value{}, args[0].([]value)...), iface{}}
 		},
 		"sort.Slice":       extSortSlice,
 		"sort.SliceStable": extSortSlice,
